@@ -87,6 +87,32 @@ func TestC17_FaucetLimits(t *testing.T) {
 				secs := rapid.SampledFrom([]int64{1, 2, 3, 59, 60, int64(c.ireset/time.Second) / 2, int64(c.ireset / time.Second), int64(c.ireset/time.Second) + 1, int64(c.greset / time.Second), int64(c.greset/time.Second) + 7}).Draw(t, "seconds")
 				h.NextBlock(1, secs)
 			}
+			if rapid.IntRange(0, 9).Draw(t, "changeLimits") == 6 {
+				// the owner changes the limits in the middle of the windows (also below what was already poured)
+				np := rapid.SampledFrom([]float64{c.max, c.periodic, c.max * 2, c.periodic / 2, c.periodic * 3}).Draw(t, "newPeriodic")
+				if np < c.max {
+					np = c.max
+				}
+				ng := rapid.SampledFrom([]float64{np, c.global, np * 2, c.global / 2, c.global * 3}).Draw(t, "newGlobal")
+				if ng < np {
+					ng = np
+				}
+				f := map[string]string{"periodic_limit": fmt.Sprint(np), "global_limit": fmt.Sprint(ng)}
+				if o, err := h.Do(l.FaucetUpdateSettings(s.Owner, f)); err == nil && !o.Failed && !o.Rejected {
+					// every faucet transaction that is applied, not only a pour, starts a new global window when the old
+					// one has run out (the contract loads and saves its global record in each of them)
+					if now := int64(h.Now); time.Duration(now-gw.start)*time.Second >= c.greset {
+						gw.start, gw.sum = now, 0
+					}
+					if np < c.periodic || ng < c.global {
+						st.Class("limits_lowered_mid_window")
+					}
+					c.periodic, c.global = np, ng
+					what = fmt.Sprintf("pour=%v max=%v periodic=%v global=%v ireset=%v greset=%v (limits changed mid-history)", c.pour, c.max, c.periodic, c.global, c.ireset, c.greset)
+				} else if err != nil {
+					t.Fatalf("%s", err.Error())
+				}
+			}
 			cl := s.Clients[rapid.IntRange(0, nclients-1).Draw(t, "client")]
 			var value uint64
 			switch rapid.IntRange(0, 5).Draw(t, "valueKind") {
